@@ -11,7 +11,7 @@ LEVEL = 'proof'
 CORRUPTIONS = ['none', 'drop-entry-unique', 'drop-entry-extern', 'drop-entry-empty', 'drop-entry-dir', 'swap-entries', 'add-entry',
                'flip-byte', 'truncate-data-entry', 'alter-hash', 'alter-size-unique', 'alter-size-extern', 'status-to-extern', 'status-to-unique',
                'alter-path', 'remove-line', 'add-line', 'dup-line-other-hash', 'truncate-data-file', 'delete-data', 'delete-meta', 'garbage-meta',
-               'delete-earlier-backup', 'traversal-entry-dotdot', 'traversal-entry-abs', 'traversal-manifest-rel', 'traversal-manifest-dotdot',
+               'delete-earlier-backup', 'traversal-entry-dotdot', 'traversal-entry-abs', 'traversal-manifest-rel', 'traversal-manifest-dotdot', 'traversal-manifest-add-dotdot', 'traversal-manifest-add-dotdot',
                'hardlink-entry', 'drop-entry-earlier-unique']
 
 
@@ -106,6 +106,10 @@ def apply_corruption(rng, w, kind, target_dir, group_dir):
         r = rng.choice(recs); r['path'] = r['path'].lstrip('/')
     elif kind == 'traversal-manifest-dotdot' and ext:
         r = rng.choice(ext); r['path'] = '/../' + r['path'].lstrip('/')
+    elif kind == 'traversal-manifest-add-dotdot' and uniq:
+        # an extra extern record pointing at existing data, with a path that climbs out of the restore directory
+        r = dict(rng.choice(uniq)); r['unique'] = False
+        r['path'] = rng.choice(['/../escape', '/a/../../escape', '/../../' + os.path.basename(os.path.dirname(target_dir)) + '-escape']); recs.append(r)
     if r is not None:
         store.write_manifest(target_dir, recs); return True
     if kind == 'truncate-data-file':
@@ -166,9 +170,15 @@ def one_storage(ctx, hid, seed, ncor):
             names = [b['name'] for b in group if not b.get('unlisted')]
             before = {p: hashlib.sha1(open(os.path.join(d, p2), 'rb').read()).hexdigest() for d, _, fs in os.walk(croot) for p2 in fs for p in [os.path.join(d, p2)]}
             rdir = os.path.join(w.base, 'restored%d' % c)
+            around = {d: set(os.listdir(d)) for d in (w.base, os.path.dirname(w.base))}
             r, tree = rc.real_restore(ctx, w, tdir, rdir)
             after = {p: hashlib.sha1(open(os.path.join(d, p2), 'rb').read()).hexdigest() for d, _, fs in os.walk(croot) for p2 in fs for p in [os.path.join(d, p2)]}
             escaped = [p for p in ('/abs-escape', os.path.join(w.base, 'escape')) if os.path.lexists(p)]
+            for d, had in around.items():
+                for n in set(os.listdir(d)) - had - {os.path.basename(rdir)}:
+                    if d == w.base or 'escape' in n:
+                        escaped.append(os.path.join(d, n))
+            escaped = sorted(set(escaped))
             req = rc.model_request(group, names.index(tname) if tname in names else 10**6, contents)
             out.append({'kind': kind, 'history': hid, 'request': req, 'rc': r.rc, 'errors': r.errors()[:6], 'tree': tree,
                         'storage_modified': before != after, 'escaped': escaped, 'contents': contents,
@@ -176,7 +186,10 @@ def one_storage(ctx, hid, seed, ncor):
             shutil.rmtree(croot, ignore_errors=True)
             shutil.rmtree(rdir, ignore_errors=True)
             for p in escaped:
-                os.unlink(p)
+                if os.path.isdir(p) and not os.path.islink(p):
+                    shutil.rmtree(p, ignore_errors=True)
+                else:
+                    os.unlink(p)
     finally:
         w.cleanup()
     return out
